@@ -5,6 +5,7 @@ import PandoraModel.Properties.C13Median
 import PandoraModel.Properties.C13Refinement
 import PandoraModel.Properties.C13CrossCheck
 import PandoraModel.Properties.C13MatchingCost
+import PandoraModel.Properties.C13Pipeline
 open Pandora.C13
 #print axioms Local.comp
 #print axioms Local.pair
@@ -50,3 +51,15 @@ open Pandora.C13
 #print axioms mcRowStep_local
 #print axioms mcRowStep_equivariant
 #print axioms costVolume_is_mcRowStep
+#print axioms costStage_local
+#print axioms wtaStage_local
+#print axioms refineStage_local
+#print axioms filterStage_local
+#print axioms filterStage_equivariant
+#print axioms ccStage_local
+#print axioms ccStage_equivariant
+#print axioms pipeline_crop_eq_whole
+#print axioms filter_crop_eq_whole
+#print axioms pipeCone_documented
+#print axioms rightDisp_local
+#print axioms rightDisp_equivariant
